@@ -53,6 +53,37 @@ LUnusedBelowAt(p, i) == Cardinality({v \in 0..(p[i] - 1) : \A j \in 1..(i - 1) :
 LRankBySplit(p) == LSeqSum([i \in DOMAIN p |-> LUnusedBelowAt(p, i) * PFact(Len(p) - i)])
 LOverallRankBySplit(p) == PSumFact(Len(p)) + LRankBySplit(p)
 
+\* ---- ranks of permutations of any length, as numerals in base 10000 ------------------
+\* TLC's integers are 32-bit; a rank of a permutation of length 13 or more does not fit.  A natural number is
+\* written as the sequence of its base-10000 digits, least significant first, without leading zeros (0 is <<>>).
+\* LBigMulAdd(x, m, c) is x * m + c for a numeral x and small naturals m, c (m * 9999 + c stays far below 2^31).
+LBigBase == 10000
+RECURSIVE LBigMulAdd(_, _, _)
+LBigMulAdd(x, m, c) == IF x = <<>> THEN (IF c = 0 THEN <<>> ELSE IF c < LBigBase THEN <<c>> ELSE <<c % LBigBase>> \o LBigMulAdd(<<>>, m, c \div LBigBase))
+                       ELSE LET t == Head(x) * m + c IN
+                            IF Len(x) = 1 /\ t = 0 THEN <<>> ELSE <<t % LBigBase>> \o LBigMulAdd(Tail(x), m, t \div LBigBase)
+RECURSIVE LBigAdd(_, _, _)
+LBigAdd(x, y, c) == IF x = <<>> /\ y = <<>> THEN (IF c = 0 THEN <<>> ELSE <<c>>)
+                    ELSE LET a == IF x = <<>> THEN 0 ELSE Head(x)
+                             b == IF y = <<>> THEN 0 ELSE Head(y)
+                             t == a + b + c
+                         IN <<t % LBigBase>> \o LBigAdd(IF x = <<>> THEN <<>> ELSE Tail(x), IF y = <<>> THEN <<>> ELSE Tail(y), t \div LBigBase)
+RECURSIVE LBigFact(_)
+LBigFact(n) == IF n = 0 THEN <<1>> ELSE LBigMulAdd(LBigFact(n - 1), n, 0)
+RECURSIVE LBigSumFact(_)      \* number of permutations shorter than n
+LBigSumFact(n) == IF n = 0 THEN <<>> ELSE LBigAdd(LBigSumFact(n - 1), LBigFact(n - 1), 0)
+\* the split of LRankBySplit in Horner form: ((c_1 (n-1) + c_2)(n-2) + ... ) 1 + c_n  =  sum of c_i (n-i)!
+RECURSIVE LBigRankFrom(_, _, _)
+LBigRankFrom(p, i, acc) == IF i > Len(p) THEN acc
+                           ELSE LBigRankFrom(p, i + 1, LBigMulAdd(acc, Len(p) - i + 1, LUnusedBelowAt(p, i)))
+LBigRankBySplit(p) == LBigRankFrom(p, 1, <<>>)
+LBigOverallRank(p) == LBigAdd(LBigSumFact(Len(p)), LBigRankBySplit(p), 0)
+\* value of a numeral that fits (cross-checks only)
+RECURSIVE LBigValue(_)
+LBigValue(x) == IF x = <<>> THEN 0 ELSE Head(x) + LBigBase * LBigValue(Tail(x))
+LBigIsNumeral(x) == /\ \A i \in DOMAIN x : x[i] \in 0..(LBigBase - 1)
+                    /\ (x # <<>> => x[Len(x)] # 0)
+
 \* ---- standardisation, second characterisation -----------------------------------
 \* r is order-isomorphic to s with ties of s read as increasing from left to right
 LIsStdOf(r, s) == /\ PIsPerm(r) /\ Len(r) = Len(s)
